@@ -389,6 +389,15 @@ func compareBound(b *built, op specgen.ParamOp, bound oracle.Bound, a servrig.An
 			}
 			continue
 		}
+		if bound.Loose[at.Name()] {
+			// an allowed empty value may be seen as "" / empty, as nothing, or — being absent — as the default
+			if isEmptyish(got) {
+				continue
+			}
+			if d, has := at.Param["default"]; has && sameValue(jx.Normalize(d), got, at.Param) == "" {
+				continue
+			}
+		}
 		if why := sameValue(exp, got, at.Param); why != "" {
 			return fmt.Sprintf("parameter %q: %s", at.Name(), why)
 		}
